@@ -138,6 +138,16 @@ def gen_in_range(cls, rng, mode='random', n_present=None):
         if t is M.VariableByteArray:
             return ('var',)
         if t is M.String:
+            # boundary-biased content: escape-looking text, NULs, high bytes, format directives
+            pats = [b'\\u0031', b'\\U0001F600', b'\\x41\\n', b'%s{0}', b'\x00', b'\xff\xfe', b'admin', b'\\\\']
+            k = rng.randrange(4)
+            if mode == 'zeros':
+                return ('bytes', bytes(f.length))
+            if mode in ('ones', 'topbit'):
+                return ('bytes', b'\xff' * f.length)
+            if k == 0:
+                pat = rng.choice(pats)
+                return ('bytes', (pat * (f.length // len(pat) + 1))[:f.length])
             return ('bytes', bytes(rng.randrange(256) for _ in range(f.length)))
         if t is M.RemainingBytes:
             return ('bytes', bytes(rng.randrange(256) for _ in range(rng.choice([0, 1, 2, 7, 20]))))
